@@ -201,6 +201,23 @@ def gen_pm2(rnd, quick):
             for i in range(n * 3):
                 g.copy(7 if i % 2 else 0, 256)    # 256 at a distance other than 0 next to code 28
             add("256-mixed", g, variant)
+    # F. a whole segment (from one table re-read point to the next) made of ONE kind of copy command, after
+    #    varied data, so that its code table is the single-code form of a code that carries a distance (and an
+    #    offset table must follow) and a wrong distance changes the output
+    for T, T2 in zip(PM2_THRESH[:-1], PM2_THRESH[1:]):
+        for ln in ([3, 9, 64] if quick else [3, 4, 5, 8, 9, 16, 17, 24, 32, 64, 128, 200, 256]):
+            for variant in ((0, 4) if quick else (0, 2, 4, 6)):
+                g = Gen(0x20)
+                while g.n < T - 1:
+                    if T - 1 - g.n > 300 and rnd.random() < 0.2:
+                        g.copy(rnd.randrange(1, min(g.n, 1000) + 1) if g.n else 0, rnd.randrange(3, 40))
+                    else:
+                        g.lit(rnd.randrange(256))
+                g.lit(rnd.randrange(256))
+                dist = rnd.choice([1, 17, 63, 200, 1000]) if ln > 2 else rnd.randrange(1, 64)
+                while g.n < T2 + 5:
+                    g.copy(dist, ln)
+                add("single-seg%d@%d" % (ln, T), g, variant)
     # E. random command lists
     for i in range(150 if quick else 600):
         g = Gen(0x20)
